@@ -99,10 +99,10 @@ func runSeq(prop, tier string, c seqCheck) int {
 			r.HarnessError("unknown family " + name)
 			continue
 		}
-		// each family gets an equal share of what is left
-		left := budget - r.Elapsed()
-		share := left / time.Duration(len(c.families)-i)
-		seqx.Explore(r, pool, f, tier, time.Now().Add(share), st)
+		// the families are listed most specific first: each may use what is left of the tier's
+		// budget (a level that has been started is finished; a cap is reported, never a failure)
+		_ = i
+		seqx.Explore(r, pool, f, tier, time.Now().Add(budget-r.Elapsed()), st)
 	}
 	if c.post != nil {
 		c.post(r, tier)
